@@ -6,3 +6,5 @@ export CARGO_NET_OFFLINE=true
 mkdir -p work evidence
 cd harness
 cargo build --profile vf --workspace 2>&1 | tail -5
+# C14 needs the same crate built with the repository's `concurrent` feature as well
+VERIF_ROOT="$(cd .. && pwd)" ./vf-conc/run.sh --build-only
